@@ -43,3 +43,21 @@ Print Assumptions C01_frames_wellformed.
     format does panic in the model (this was defect D1 of the pinned code) *)
 Example C01_gate_needed : exists w, srt_from_message [8;0;0;0;0;0;0;0;0;0;0;0;0;0] = Panic w.
 Proof. exact short_frame_long_df_panics. Qed.
+
+(** ---- the one accumulator that grows with the input: the -c counters against their declared integer type ---- *)
+From SQ Require Import Base Tables Table TableProofs CounterWidth.
+
+
+(** for every stream of at most df_counter_max lines (df_counter_max is regenerated from the type declared in src/counters.rs) every counter stays within that type: the addition in update_count cannot overflow *)
+Theorem C01_counters_cannot_overflow : forall (o : opts) (now : Z) (ls : list (option (list N))) (s s' : state), run_lines o now s ls = Ok s' -> df_count (cnt s) = [] -> (Z.of_nat (Datatypes.length ls) <= df_counter_max)%Z -> forall d : N, (0 <= cnt_get (df_count (cnt s')) d <= df_counter_max)%Z.
+Proof. exact counters_fit. Qed.
+Check C01_counters_cannot_overflow : forall (o : opts) (now : Z) (ls : list (option (list N))) (s s' : state), run_lines o now s ls = Ok s' -> df_count (cnt s) = [] -> (Z.of_nat (Datatypes.length ls) <= df_counter_max)%Z -> forall d : N, (0 <= cnt_get (df_count (cnt s')) d <= df_counter_max)%Z.
+Print Assumptions C01_counters_cannot_overflow.
+
+(** and that bound is at least 2^63-1 lines per reader run (defect D14: it was 2^31-1) *)
+Theorem C01_counter_capacity : (2 ^ 63 - 1 <= df_counter_max)%Z.
+Proof. exact counter_capacity. Qed.
+Check C01_counter_capacity : (2 ^ 63 - 1 <= df_counter_max)%Z.
+Print Assumptions C01_counter_capacity.
+
+
